@@ -307,9 +307,9 @@ def dec_reg(k, e):
 @G._memo
 def reg_strategy():
     T = reg_table()
-    reg = st.sampled_from(sorted(T)).flatmap(lambda k: st.tuples(T[k][1], st.sampled_from(["plain", "plain", "opt", "list", "dict"])).map(
+    reg = st.sampled_from(sorted(T)).flatmap(lambda k: st.tuples(T[k][1], st.sampled_from(["plain", "plain", "opt", "list", "dict", "any", "listfile"])).map(
         lambda t: {"kind": "registered", "type": k, "wrap": t[1], "value": enc_reg(k, t[0])}))
-    secret = st.tuples(st.text(alphabet="abcdefghijklmnopqrstuvwxyzABCXYZ0123456789", min_size=6, max_size=12), st.sampled_from(["plain", "opt", "list", "dc"])).map(
+    secret = st.tuples(st.text(alphabet="abcdefghijklmnopqrstuvwxyzABCXYZ0123456789", min_size=6, max_size=12), st.sampled_from(["plain", "opt", "list", "dc", "any"])).map(
         lambda t: {"kind": "secret", "wrap": t[1], "value": "S3c" + t[0]})
     return st.one_of(reg, reg, reg, reg, secret)
 
@@ -348,6 +348,8 @@ def run_registered(ctx, case):
     k, wrap = case["type"], case["wrap"]
     T = reg_table()[k][0]
     v = dec_reg(k, case["value"])
+    if wrap in ("any", "listfile"):
+        return run_registered_elsewhere(ctx, case, k, wrap, T, v)
     TT = {"plain": T, "opt": Optional[T], "list": List[T], "dict": Dict[str, T]}[wrap]
     vv = {"plain": v, "opt": v, "list": [v], "dict": {"k": v}}[wrap]
     p = ArgumentParser(exit_on_error=False)
@@ -406,6 +408,68 @@ def run_registered(ctx, case):
                 report("argv-reparse-raises", {"value": repr(v), "text": raw, "error": fmt_exc(ex)})
 
 
+def run_registered_elsewhere(ctx, case, k, wrap, T, v):
+    """a value of a registered type (i) held by an ``Any``-typed argument: its dump is the type's config representation, which an argument
+    of that type reads back; (ii) as the items of a List[T] argument read from a file with one item per line"""
+    import os
+    from typing import Any, List
+
+    from jsonargparse import ArgumentParser
+
+    ctx.cls(f"registered:{k}:{wrap}")
+    ctx.mark_nontrivial()
+    typed = ArgumentParser(exit_on_error=False)
+    typed.add_argument("--x", type=T)
+
+    def f19(step):
+        if k == "Decimal" and (decimal.Decimal(float(v)) != v or decimal.Decimal(repr(float(v))) != v):
+            return "C20/F19/Decimal-not-exactly-representable-as-binary-float-is-serialised-through-float"
+        return f"C20/registered/{k}/{step}"
+
+    if wrap == "any":
+        p = ArgumentParser(exit_on_error=False)
+        p.add_argument("--x", type=Any)
+        try:
+            cfg = p.parse_object({"x": copy.deepcopy(v)})
+        except Exception as ex:  # noqa
+            ctx.finding(f"C20/registered/{k}/under-Any/instance-rejected:{type(ex).__name__}", {"value": repr(v), "error": fmt_exc(ex)})
+            return
+        for fmt in ("yaml", "json"):
+            try:
+                d = p.dump(copy.deepcopy(cfg), format=fmt)
+            except Exception as ex:  # noqa
+                ctx.finding(f"C20/registered/{k}/under-Any/dump-raises/{fmt}:{type(ex).__name__}", {"value": repr(v), "error": fmt_exc(ex)})
+                continue
+            try:
+                back = typed.parse_string(d).x
+            except Exception as ex:  # noqa
+                ctx.finding(f19(f"under-Any/dump-not-read-by-an-argument-of-the-type/{fmt}"), {"value": repr(v), "dump": short(d, 200), "error": fmt_exc(ex)})
+                continue
+            if not eq_typed(back, v):
+                ctx.finding(f19(f"under-Any/roundtrip-differs/{fmt}"), {"value": repr(v), "dump": short(d, 200), "got": repr(back)})
+        return
+    # listfile: the serialised texts of [v, v] one per line
+    cfg1 = typed.parse_object({"x": copy.deepcopy(v)})
+    ser = json.loads(typed.dump(cfg1, format="json"))["x"]
+    text = ser if isinstance(ser, str) else json.dumps(ser)
+    if text.strip() != text or text == "" or "\n" in text or "\r" in text:
+        ctx.exclude("list file: an item whose text is empty / has surrounding blanks / a line break has no line of its own")
+        return
+    p = ArgumentParser(exit_on_error=False)
+    p.add_argument("--x", type=List[T], enable_path=True)
+    with _rt.scratch_dir() as d:
+        f = os.path.join(d, "items.lst")
+        with open(f, "w", encoding="utf-8") as fh:
+            fh.write(text + "\n" + text + "\n")
+        try:
+            got = p.parse_args(["--x", f]).x
+        except Exception as ex:  # noqa
+            ctx.finding(f19("list-file/rejected"), {"value": repr(v), "line": text, "error": fmt_exc(ex)})
+            return
+    if not (isinstance(got, list) and len(got) == 2 and all(eq_typed(g, v) for g in got)):
+        ctx.finding(f19("list-file/items-differ"), {"value": repr(v), "line": text, "got": repr(got)[:200]})
+
+
 def run_secret(ctx, case):
     import contextlib
     import dataclasses
@@ -424,20 +488,25 @@ def run_secret(ctx, case):
 
     p = ArgumentParser(exit_on_error=False)
     p.add_argument("--cfg", action="config")
-    TT = {"plain": SecretStr, "opt": Optional[SecretStr], "list": List[SecretStr], "dc": Creds}[wrap]
-    p.add_argument("--x", type=TT)
-    val = {"plain": secret, "opt": secret, "list": [secret, "other"], "dc": {"password": secret}}[wrap]
+    from typing import Any
+
+    TT = {"plain": SecretStr, "opt": Optional[SecretStr], "list": List[SecretStr], "dc": Creds, "any": Any}[wrap]
+    if wrap == "any":  # an untyped parameter whose default is a secret (fail_untyped=False makes such parameters Any-typed arguments)
+        p.add_argument("--x", type=TT, default=SecretStr(secret))
+    else:
+        p.add_argument("--x", type=TT)
+    val = {"plain": secret, "opt": secret, "list": [secret, "other"], "dc": {"password": secret}, "any": None}[wrap]
     ctx.cls("secret:" + wrap)
     ctx.mark_nontrivial()
-    cfg = p.parse_object({"x": val})
-    got = cfg.x if wrap in ("plain", "opt") else cfg.x[0] if wrap == "list" else cfg.x.password
+    cfg = p.parse_object({"x": val}) if wrap != "any" else p.parse_args([])
+    got = cfg.x if wrap in ("plain", "opt", "any") else cfg.x[0] if wrap == "list" else cfg.x.password
     if not isinstance(got, SecretStr) or got.get_secret_value() != secret:
         ctx.finding("C20/secret/value-not-kept", {"got": repr(got)})
     texts = {"repr": repr(cfg), "str": str(cfg)}
     for fmt in ("yaml", "json", "json_indented"):
         for kw in ({}, {"skip_none": False}, {"skip_default": True}, {"yaml_comments": True} if fmt == "yaml" else {}):
             texts[f"dump({fmt},{sorted(kw)})"] = p.dump(copy.deepcopy(cfg), format=fmt, **kw)
-    argv = ["--x=" + (secret if wrap in ("plain", "opt") else json.dumps(val))]
+    argv = ["--x=" + (secret if wrap in ("plain", "opt") else json.dumps(val))] if wrap != "any" else []
     for flag in ("--print_config", "--print_config=skip_null", "--print_config=skip_default", "--print_config=comments"):
         buf = io.StringIO()
         try:
